@@ -74,6 +74,7 @@ type relEvent struct {
 	Schema []yType  `json:"schema"`
 	Perms  [][]yRel `json:"perms"`
 	Ret    string   `json:"ret"`
+	Edited bool     `json:"edited"` // the last listing is that of the schema built through the editing methods
 }
 
 type relCase struct {
@@ -141,6 +142,12 @@ func runRelCase(c relCase) relEvent {
 			}
 			ev.Perms = append(ev.Perms, lst)
 		}
+		// once more through the editing methods, with a listing after every edit: whatever
+		// Rels() keeps from one call to the next has to follow AddType, AddRel and AddTwoWayRel
+		if lst, ok := relsThroughEdits(c.Schema); ok {
+			ev.Perms = append(ev.Perms, lst)
+			ev.Edited = true
+		}
 	})
 	if p {
 		ev.Ret = "panic"
@@ -153,6 +160,58 @@ func runRelCase(c relCase) relEvent {
 		}
 	}
 	return ev
+}
+
+func relsThroughEdits(schema []yType) ([]yRel, bool) {
+	s := &jsonapi.Schema{}
+	for _, t := range schema {
+		if s.AddType(jsonapi.Type{Name: t.Name.String()}) != nil {
+			return nil, false
+		}
+		_ = s.Rels()
+	}
+	find := func(typ, name string) (jsonapi.Rel, bool) {
+		for _, t := range schema {
+			if t.Name.String() != typ {
+				continue
+			}
+			for _, r := range t.Rels {
+				if r.FN.String() == name {
+					return r.real(), true
+				}
+			}
+		}
+		return jsonapi.Rel{}, false
+	}
+	done := map[string]bool{}
+	for _, t := range schema {
+		for _, yr := range t.Rels {
+			r := yr.real()
+			key := t.Name.String() + "." + r.FromName
+			if done[key] {
+				continue
+			}
+			if inv, ok := find(r.ToType, r.ToName); ok && r.ToName != "" && r.FromType == t.Name.String() && inv == r.Invert() &&
+				!(r.ToType == r.FromType && r.ToName == r.FromName) {
+				if s.AddTwoWayRel(r) == nil {
+					done[key], done[r.ToType+"."+r.ToName] = true, true
+					_ = s.Rels()
+					continue
+				}
+			}
+			if s.AddRel(t.Name.String(), r) != nil {
+				return nil, false
+			}
+			done[key] = true
+			_ = s.Rels()
+		}
+	}
+	rels := s.Rels()
+	lst := make([]yRel, 0, len(rels))
+	for _, r := range rels {
+		lst = append(lst, yOf(r))
+	}
+	return lst, true
 }
 
 func relMain(args []string) {
@@ -224,6 +283,9 @@ func relMain(args []string) {
 			n := 0
 			for _, t := range s {
 				n += len(t.Rels)
+			}
+			if ev.Edited && n > 0 {
+				stt.class("rels:through-edits")
 			}
 			if n > 0 {
 				stt.class("rels:nonempty")
